@@ -26,38 +26,37 @@ Print Assumptions C14_selectors_svm.
 
 (* ------------------------------------------------------------------ prank *)
 (* For EVERY finite sequence of prank / prank2 / startPrank / startPrank2 / stopPrank /
-   cheatcode call / call / static call / create / return / new transaction, starting from
-   any top-level frame, the sender and origin each entered frame observes under the model of
-   halmos equal those of Foundry's documented meaning -- provided no console.log call
-   occurs (see C14_prank_trace_refuted) and ordinary calls do not target a cheatcode address. *)
-Theorem C14_prank_trace_partial :
+   cheatcode call (vm.*, svm.*, console.log) / call / static call / create / return / new
+   transaction, starting from any top-level frame, the sender and origin each entered frame
+   observes under the model of halmos equal those of Foundry's documented meaning
+   (ordinary calls do not target a cheatcode address: those are the OCheat ops). *)
+Theorem C14_prank_trace :
   forall this sender origin ops,
-    Forall not_console ops -> Forall target_ok ops ->
+    Forall target_ok ops ->
     m_run [m_fresh this sender origin] ops = s_run [s_fresh this sender origin] ops.
 Proof. exact prank_trace. Qed.
-Print Assumptions C14_prank_trace_partial.
+Print Assumptions C14_prank_trace.
 
-(* The full statement (console.log included among the cheatcode calls, as in
-   sevm.CHEATCODE_ADDRESSES and in Foundry) is false of halmos: Prank.lookup exempts only
-   the hevm and svm addresses, so a console.log between vm.prank(a) and the call consumes
-   the prank and the call is made with the unpranked sender. *)
-Theorem C14_prank_trace_refuted :
-  exists this sender origin ops,
-    Forall target_ok ops /\
-    m_run [m_fresh this sender origin] ops <> s_run [s_fresh this sender origin] ops.
-Proof. exact prank_trace_refuted. Qed.
-Print Assumptions C14_prank_trace_refuted.
+(* "never cheatcode calls": the callees Prank.lookup exempts are exactly the addresses
+   SEVM.call treats as cheatcode addresses (hevm, svm, console -- both lists regenerated from
+   the source), and a call to any of them, anywhere in any sequence, changes nothing any
+   entered frame observes *)
+Theorem C14_prank_exempt :
+  forall a, In a prank_exempt <-> In a cheatcode_addresses.
+Proof. exact prank_exempt_exact. Qed.
+Print Assumptions C14_prank_exempt.
 
-Theorem C14_prank_exempt_refuted :
-  exists a, In a cheatcode_addresses /\ ~ In a prank_exempt.
-Proof. exact prank_exempt_incomplete. Qed.
-Print Assumptions C14_prank_exempt_refuted.
+Theorem C14_prank_cheat_transparent :
+  forall pre c post st,
+    m_run st (pre ++ OCheat c :: post) = m_run st (pre ++ post).
+Proof. exact cheat_call_transparent. Qed.
+Print Assumptions C14_prank_cheat_transparent.
 
 (* a second prank/startPrank while one is in force (by Foundry's reading of the frame's own
    history) is rejected, after every accepted prefix; otherwise it is accepted *)
 Theorem C14_prank_reject :
   forall this sender origin pre o post sf srest,
-    Forall not_console pre -> Forall target_ok pre ->
+    Forall target_ok pre ->
     s_after [s_fresh this sender origin] pre = Some (sf :: srest) ->
     in_effect (s_hist sf) false <> None -> is_prank_op o = true ->
     m_run [m_fresh this sender origin] (pre ++ o :: post) =
@@ -67,7 +66,7 @@ Print Assumptions C14_prank_reject.
 
 Theorem C14_prank_accept :
   forall this sender origin pre o sf srest,
-    Forall not_console pre -> Forall target_ok pre ->
+    Forall target_ok pre ->
     s_after [s_fresh this sender origin] pre = Some (sf :: srest) ->
     in_effect (s_hist sf) false = None -> is_prank_op o = true ->
     m_after [m_fresh this sender origin] (pre ++ [o]) <> None.
@@ -86,14 +85,13 @@ Print Assumptions C14_prank_not_inherited.
 Example C14_prank_nonvacuous :
   (* startPrank2 in the outer frame, a nested frame pranking on its own, return, stop *)
   let ops := [OStartPrank2 7 8; OCall KCall 20; OCall KStatic 21; OReturn; OPrank 9; OCheat CHevm;
-              OCreate 22; OReturn; OCall KCall 23; OReturn; OReturn; OCall KCall 24; OReturn; OStopPrank;
+              OCheat CConsole; OCreate 22; OReturn; OCall KCall 23; OReturn; OReturn; OCall KCall 24; OReturn; OStopPrank;
               OCall KCall 25; OReturn; ONewTx 30 31 32; OCall KCall 33] in
-  Forall not_console ops /\ Forall target_ok ops /\
+  Forall target_ok ops /\
   m_run [m_fresh 1 2 3] ops =
     [Obs 7 8; Obs 20 8; Obs 9 8; Obs 20 8; Obs 7 8; Obs 1 3; Obs 30 32].
 Proof.
-  cbv zeta. split; [|split].
-  - repeat constructor.
+  cbv zeta. split.
   - repeat constructor; cbn; vm_compute; intuition discriminate.
   - vm_compute. reflexivity.
 Qed.
